@@ -3036,8 +3036,8 @@ def SIR_heterogeneous_pairwise(Sk0, Ik0, Rk0, SkSl0, SkIl0, tau, gamma,
 
     Nk = Sk0+Ik0+Rk0
     kcount = len(Ks)
-    SkSl0.shape = (kcount**2,1)
-    SkIl0.shape = (kcount**2,1)
+    SkSl0 = SkSl0.reshape((kcount**2,1)) #leaves the caller's arrays untouched
+    SkIl0 = SkIl0.reshape((kcount**2,1))
 
     X0 = np.concatenate((Sk0[:,None], Ik0[:,None], SkSl0, SkIl0), 
                                 axis=0).T[0]
@@ -4043,8 +4043,8 @@ def SIS_effective_degree(Ssi0, Isi0, tau, gamma, tmin = 0, tmax=100,
     times = np.linspace(tmin,tmax,tcount) 
     original_shape = Ssi0.shape
     ksq = original_shape[0]*original_shape[1]
-    Ssi0.shape = (1,ksq)
-    Isi0.shape = (1,ksq)
+    Ssi0 = Ssi0.reshape((1,ksq)) #reshape (not .shape=) so that the caller's arrays are untouched
+    Isi0 = Isi0.reshape((1,ksq))
     
     X0= np.concatenate((Ssi0[0], Isi0[0]), axis=0)
     X = integrate.odeint(_dSIS_effective_degree_, X0, times, 
@@ -4118,7 +4118,7 @@ def SIR_effective_degree(S_si0, I0, R0, tau, gamma, tmin=0, tmax=100,
     times = np.linspace(tmin,tmax, tcount)
     N = S_si0.sum()+I0+R0
     original_shape = S_si0.shape
-    S_si0.shape = (original_shape[0]*original_shape[1]) 
+    S_si0 = S_si0.reshape(original_shape[0]*original_shape[1]) #leaves the caller's array untouched
     #note this makes it array([[values...]])
     R0=np.array([R0])
     R0.shape=(1)
